@@ -336,7 +336,7 @@ theorem walk_node (R : RParser) (D : ToDom) : ∀ (k : Node) (w : WState) (base 
       obtain ⟨tag, pw⟩ := p
       rw [her] at hrest
       simp only [Bool.and_eq_true, Bool.or_eq_true, Bool.not_eq_true'] at hrest
-      obtain ⟨⟨⟨⟨hko, hlo⟩, hflat⟩, hlist⟩, _⟩ := hrest
+      obtain ⟨⟨⟨⟨⟨hko, hlo⟩, hflat⟩, hlist⟩, _⟩, _⟩ := hrest
       rw [Schema.checkNode] at hck
       simp only [Bool.and_eq_true] at hck
       obtain ⟨⟨hvc, _⟩, hckk⟩ := hck
